@@ -180,8 +180,9 @@ func (c *caseT) knownCrash(rec *ev.Rec, prop string, err *engineErr, strat strin
 	case strings.Contains(err.stack, "Union).getLookup") && strings.Contains(err.stack, "Compatible).source2Has") &&
 		disjointLookupRe.MatchString(strat):
 		key = "union-disjoint-lookup-probe"
-	case err.Error() == "ASSERT FAILED" && strings.Contains(err.stack, "query.selEnd") &&
-		strings.Contains(err.stack, "Union).Select") && c.usesEmptyKeyTable():
+	case (err.Error() == "ASSERT FAILED" && strings.Contains(err.stack, "query.selEnd") ||
+		strings.HasPrefix(err.Error(), "Sels.Get can't find") && strings.Contains(err.stack, "query.selKeys")) &&
+		strings.Contains(err.stack, "Union).Select(") && strings.Contains(strat, "union-merge"):
 		key = "union-select-emptykey-source"
 	case strings.HasPrefix(err.Error(), "rename: ") && strat == "" && c.hasOp("rename") && strings.Contains(err.stack, ").Transform"):
 		key = "rename-chain-transform"
